@@ -61,6 +61,7 @@ class Execution(object):
         isolation.reset()  # every execution stands for a fresh process
         self.main_fn, self.monitor, self.root = h.fresh()
         self.sched = vmp.Sched(pipe_capacity=h.pipe_capacity, io_points=h.io_points, monitor=self.monitor, root=self.root, contended_timeouts=getattr(h, "contended_timeouts", False))
+        self.sched.create_points = bool(getattr(h, "create_points", False))
         self.patch = vmp.Patched(self.sched)
         self.patch.__enter__()
         try:
